@@ -55,6 +55,10 @@ CLAIMED = {
             "Lean 4 theorems (rename_names, rename_data_unchanged, rename_labels, rename_lookup, rename_lookup_stale, rename_compose, chain_observe for enum and integer encodings incl. the enum-header fallback) + differential correspondence over all partial injective maps and chains",
             "Proof: renaming rewrites names in the original order and nothing else (lengths, codes, starts/ends, pixels, indexes, attributes); lookups by the new name return what the old name returned, stale names are not found, successive maps compose; the same object's cache equals a reopened one. Real rename_chroms is observed on the same object, after reopening and on raw datasets.",
             "Trusted: Lean kernel; model tied by correspondence; HDF5 enum header limit is a model parameter (theorems hold for both outcomes)."),
+    "C13": ("DESIGN.md §5 C13",
+            "Lean 4 theorems (validate_accepts_iff, validate_rejects, format_last, partial_not_cooler, frame_other_collections, pipeline_dest_untouched by induction over the step list of create()) + exhaustive fault enumeration against the real producers",
+            "Proof: the validator accepts a chunk iff ids are in range, upper-triangular in symmetric mode and keys distinct; for EVERY strict prefix of create()'s steps the target carries no format attribute (unless it is a root that already was a cooler), so after any fault it is neither recognised nor listed, and in append mode every collection outside the target's footprint is unchanged; faults inside temporary files of merge/coarsen/unordered pipelines leave the destination untouched. Every invalid-record kind at every chunk index and position, and an iterator exception before every chunk, are injected into ordered/unordered creation, merge and coarsen over several destination kinds.",
+            "Trusted: Lean kernel; model tied by correspondence (partial file state compared with runUntil k); exceptions leaving create() only - process kill and torn HDF5 writes are outside."),
 }
 
 NOT_YET = {}
